@@ -98,8 +98,9 @@ Section Walk.
     iv_queue : s_queue st = map (ps_qof DB) (filter ps_item_is_dir items);
     iv_nodes : forall p n, In (p, n) items -> ms_node_at t p = Some n;
     iv_e2i : ps_e2i_ok t st (popped ++ map fst items);
-    iv_seen : forall e, In e (s_seen st) ->
-              exists p, In p popped /\ ms_is_dir_at t p = true /\ e = ms_ext_at DB p;
+    iv_seen : forall b, In b (s_seen st) ->
+              exists p nm dl kids, In p popped /\ ms_node_at t p = Some (Dir nm dl kids) /\
+                                   ms_ext_at DB p <= b < ms_ext_at DB p + dl / BS;
     iv_nodup : NoDup (popped ++ wgo f (ps_dq items));
     iv_size : (ps_wsize (ps_dq items) <= f)%nat;
     iv_cur : s_cur st = [];
@@ -112,24 +113,45 @@ Section Walk.
     exfalso. exact (H x He eq_refl).
   Qed.
 
-  Lemma ps_dir_ext_distinct p1 p2 : ms_is_dir_at t p1 = true -> ms_is_dir_at t p2 = true -> p1 <> p2 ->
-    ms_ext_at DB p1 <> ms_ext_at DB p2.
+  Lemma ps_blocks_of_in ext dl b : dl mod BS = 0 -> BS <= dl ->
+    In b (ps_blocks_of ext dl) <-> ext <= b < ext + dl / BS.
   Proof.
-    intros H1 H2 Hne.
-    destruct (ms_is_dir_node t p1 H1) as (n1 & d1 & k1 & N1).
-    destruct (ms_is_dir_node t p2 H2) as (n2 & d2 & k2 & N2).
-    pose proof (ms_chunks_disjoint dt Hdt t Hwf p1 p2 H1 H2 Hne) as Hd.
-    destruct (ms_chunk_facts dt Hdt t Hwf p1 n1 d1 k1 N1) as (F1 & _ & _ & G1 & C1 & _).
-    destruct (ms_chunk_facts dt Hdt t Hwf p2 n2 d2 k2 N2) as (F2 & _ & _ & G2 & C2 & _).
-    unfold ms_disjoint in Hd. rewrite F1, F2, C1, C2 in Hd. unfold ceiling_div in Hd.
-    rewrite ms_BS in *.
+    intros Hm Hd. unfold ps_blocks_of, ceiling_div. rewrite in_map_iff. rewrite ms_BS in *.
     Ltac Zify.zify_post_hook ::= Z.to_euclidean_division_equations.
-    lia.
+    split.
+    - intros (k & <- & Hk). apply in_seq in Hk. lia.
+    - intros H. exists (Z.to_nat (b - ext)). split; [lia|]. apply in_seq. lia.
+  Qed.
+
+  (* the blocks of two different directories *)
+  Lemma ps_dir_blocks_disjoint p1 n1 d1 k1 p2 n2 d2 k2 b :
+    ms_node_at t p1 = Some (Dir n1 d1 k1) -> ms_node_at t p2 = Some (Dir n2 d2 k2) -> p1 <> p2 ->
+    ms_ext_at DB p1 <= b < ms_ext_at DB p1 + d1 / BS -> ms_ext_at DB p2 <= b < ms_ext_at DB p2 + d2 / BS -> False.
+  Proof.
+    intros N1 N2 Hne B1 B2.
+    assert (H1 : ms_is_dir_at t p1 = true) by (unfold ms_is_dir_at; rewrite N1; reflexivity).
+    assert (H2 : ms_is_dir_at t p2 = true) by (unfold ms_is_dir_at; rewrite N2; reflexivity).
+    pose proof (ms_chunks_disjoint dt Hdt t Hwf p1 p2 H1 H2 Hne) as Hd.
+    destruct (ms_chunk_facts dt Hdt t Hwf p1 n1 d1 k1 N1) as (F1 & _ & M1 & G1 & C1 & _).
+    destruct (ms_chunk_facts dt Hdt t Hwf p2 n2 d2 k2 N2) as (F2 & _ & M2 & G2 & C2 & _).
+    unfold ms_disjoint in Hd. rewrite F1, F2, C1, C2 in Hd. unfold ceiling_div in Hd.
+    rewrite ms_BS in *. lia.
+  Qed.
+
+  (* a directory of the mastered image lies inside the image: its dir_block_range is all its blocks *)
+  Lemma ps_range_dir p nm dl kids : ms_node_at t p = Some (Dir nm dl kids) ->
+    ps_range isz (ms_ext_at DB p) dl = ps_blocks_of (ms_ext_at DB p) dl /\ dl mod BS = 0 /\ BS <= dl.
+  Proof.
+    intros Hp. destruct (ms_chunk_facts dt Hdt t Hwf p nm dl kids Hp) as (_ & _ & Hm & Hg & _).
+    destruct (ms_dext_range t Hwf p nm dl kids Hp) as (_ & He & H0).
+    pose proof (ms_dir_end_le t Hwf) as Hle. split; [|split; assumption].
+    unfold ps_range, ps_blocks_of. rewrite ms_BS in *.
+    replace (Z.min dl (Z.max (isz - ms_ext_at DB p * 2048) 0)) with dl by lia. reflexivity.
   Qed.
 
   Theorem ps_walk_ok : forall f items st popped F,
     ps_inv f st items popped -> (f < F)%nat ->
-    ps_walk F (ms_img_read img') ptr isz st = POk (ps_gwalk f dt t DB FB items st).
+    ps_walk true F (ms_img_read img') ptr isz st = POk (ps_gwalk f dt t DB FB items st).
   Proof.
     induction f as [|f IH]; intros items st popped F Inv HF.
     - destruct items as [|[p n] q].
@@ -149,7 +171,7 @@ Section Walk.
           constructor; try assumption.
           -- intros p' n' Hin. apply Hn. right. exact Hin.
           -- rewrite <- app_assoc. exact He.
-          -- intros e Hin. destruct (Hseen e Hin) as (p' & Hp' & R). exists p'.
+          -- intros b Hin. destruct (Hseen b Hin) as (p' & n' & d' & k' & Hp' & R). exists p', n', d', k'.
              split; [apply in_or_app; left; exact Hp'|exact R].
           -- rewrite <- app_assoc. exact Hnd.
           -- lia.
@@ -173,9 +195,17 @@ Section Walk.
           (* the directory was not walked before *)
           assert (Hnew : ~ In p popped).
           { apply NoDup_remove_2 in Hnd. intros Hin. apply Hnd. apply in_or_app. left. exact Hin. }
-          replace (ps_mem ext (s_seen st)) with false.
-          2:{ symmetry. apply ps_mem_false. intros e Hin ->. destruct (Hseen _ Hin) as (p' & Hp' & Hd' & Heq).
-              apply (ps_dir_ext_distinct p p' Hpd Hd'); [|exact Heq]. intros ->. exact (Hnew Hp'). }
+          destruct (ps_range_dir p nm dl kids Hpn) as (Hrange & Hmod & Hge).
+          assert (Henter : ps_enter true isz (s_seen st) ext dl = inr (ps_blocks_of ext dl ++ s_seen st)).
+          { unfold ps_enter, ext. rewrite Hrange. cbv zeta.
+            replace (existsb (fun b => ps_mem b (s_seen st)) (ps_blocks_of (ms_ext_at DB p) dl)) with false; [reflexivity|].
+            symmetry. apply not_true_is_false. intros Hex. apply existsb_exists in Hex. destruct Hex as (b & Hb & Hmem).
+            apply (ps_blocks_of_in _ _ _ Hmod Hge) in Hb.
+            unfold ps_mem in Hmem. apply existsb_exists in Hmem. destruct Hmem as (b' & Hb' & E). apply Z.eqb_eq in E. subst b'.
+            destruct (Hseen _ Hb') as (p' & n' & d' & k' & Hp' & Hn' & Hr').
+            apply (ps_dir_blocks_disjoint p nm dl kids p' n' d' k' b Hpn Hn'); [|exact Hb|exact Hr'].
+            intros ->. exact (Hnew Hp'). }
+          rewrite Henter.
           (* its children were not created before *)
           assert (HX : forall j, (j < length kids)%nat -> ~ In (p ++ [j]) (popped ++ map fst ((p, Dir nm dl kids) :: q))).
           { intros j Hj Hin. cbn [map fst] in Hin.
@@ -215,9 +245,10 @@ Section Walk.
                by (rewrite <- !app_assoc; reflexivity).
              exact HE2.
           -- unfold ps_spec_dir. cbn [ps_end_dir s_seen]. rewrite Fseen. cbn [s_seen].
-             intros e [<-|Hin].
-             ++ exists p. split; [apply in_or_app; right; left; reflexivity|]. split; [exact Hpd|reflexivity].
-             ++ destruct (Hseen e Hin) as (p' & Hp' & R). exists p'.
+             intros b Hin. apply in_app_or in Hin. destruct Hin as [Hin|Hin].
+             ++ exists p, nm, dl, kids. split; [apply in_or_app; right; left; reflexivity|]. split; [exact Hpn|].
+                apply (ps_blocks_of_in _ _ _ Hmod Hge). exact Hin.
+             ++ destruct (Hseen b Hin) as (p' & n' & d' & k' & Hp' & R). exists p', n', d', k'.
                 split; [apply in_or_app; left; exact Hp'|exact R].
           -- unfold ps_dq at 1. rewrite map_app. fold (ps_dq q). fold (ps_dq (ps_items p 0 kids)).
              rewrite <- app_assoc. exact Hnd0.
